@@ -19,7 +19,7 @@ Cat ==
   ("column_alias"     :> {"survey", "choices", "settings"}) @@   \* aliases.survey_header / list_header / settings_header
   ("delimiter"        :> {"survey", "choices"}) @@               \* process_header: ':' vs '::', spaces around
   ("type_alias"       :> {"survey"}) @@                          \* aliases.select / control regexes / _type_alias_map
-  ("truth_spelling"   :> {"survey"}) @@                          \* aliases.yes_no / BINDING_CONVERSIONS
+  ("truth_spelling"   :> {"survey", "settings"}) @@                          \* aliases.yes_no / BINDING_CONVERSIONS
   ("smart_quotes"     :> {"survey"}) @@                          \* clean_text_values
   ("pad_cells"        :> {"survey", "choices", "settings"}) @@   \* clean_text_values / cell strip
   ("permute_columns"  :> {"survey", "choices", "settings"}) @@
